@@ -17,7 +17,8 @@ SPEC = dict(
     rule=("cases = source texts: the inputs of the repaired defects and ~100 directed corner cases, every byte string of "
           "length <=3 over 20 symbols, every sequence of <=3 (quick) / <=4 (thorough) token texts over the 40 most "
           "structural tokens, 5k/100k mutants of 18 valid programs (delete/duplicate/swap/replace tokens, unbalance "
-          "brackets, stray ; } ) inside blocks, truncate), 2k/20k strings with invalid UTF-8 and control characters. "
+          "brackets, stray ; } ) inside blocks, truncate), ~1.5k guards containing bracketed/parenthesised brace expressions, "
+          "~630 try statements with errors inside except/otherwise/finally clauses, 2k/20k strings with invalid UTF-8 and control characters. "
           "The real lexer's token list is part of the case; compared: tree shape (names, token values, raw flag; no "
           "positions) or error kind+line+col, model verdicts wf=1 (WellFormed on the identical tree) and leak=0 measured by goroutine accounting around parser.Parse. "
           "Non-trivial = the token list has at least 3 tokens."),
